@@ -469,12 +469,13 @@ pub fn patch(
             let width = target_patch_region.width;
             let height = target_patch_region.height;
 
-            let left = target_patch_region.left - target.x;
-            let top = target_patch_region.top - target.y;
+            // Patch coordinates are not bounded by the bitstream.
+            let left = target_patch_region.left.saturating_sub(target.x);
+            let top = target_patch_region.top.saturating_sub(target.y);
 
             let ref_patch_region = ref_grid_region.intersection(Region {
-                left: patch_ref.x0 as i32 + left,
-                top: patch_ref.y0 as i32 + top,
+                left: (patch_ref.x0 as i32).saturating_add(left),
+                top: (patch_ref.y0 as i32).saturating_add(top),
                 width,
                 height,
             });
